@@ -10,6 +10,7 @@ import CruxVerif.Lemmas.Resolve
 import CruxVerif.Lemmas.Occ
 import CruxVerif.Lemmas.Timer.ClearedSet
 import CruxVerif.Lemmas.Futures
+import CruxVerif.Lemmas.Acc
 namespace Props.C13
 open M M.Rt M.Bridge M.Slab
 
@@ -211,6 +212,28 @@ theorem aborted_command_drops_task_futures (runTask : Nat → Nat → World → 
   intro t ht
   have := (dropAll_futures (w.cmd c).tasks.values w hf).1 t ht
   exact this
+
+/-- **EVERY LIVE TASK FUTURE IS STORED — over whole runs** (host-free task programs: emit, notify, request, stream, spawn,
+    join, select, hand-off, join / abort handles, self-wake, abort of the command, in any nesting; direct host). After EVERY
+    history of resolutions, drops, aborts and polls, every task future whose drop guard is still alive belongs to a task that
+    sits in the command's slab or waits in its spawn queue: a finished, cancelled, evicted or aborted task's future — and
+    everything it captured — is gone, nothing is kept anywhere else, and so the number of live futures never exceeds what
+    the slab and the spawn queue hold, whatever the length of the history. Accounting invariant `Acc` (Lemmas/Acc.lean: one
+    `grind` frame over `pollBlock`, then the executor, the shell's operations and the direct host), carried next to `GInv`
+    and `LQ`. This is the quantity the harness observes on the real code with drop guards (`g<N>`). -/
+theorem live_task_futures_are_stored (is : List Instr) (hf : hostFreeIs is = true) (canon : Bool)
+    (acts : List M.Hosts.Action) (os : List M.Hosts.Obs) (d : M.Hosts.Direct)
+    (h : M.Hosts.runDirect (.task is) canon acts = some (os, d)) :
+    (∀ s, s < d.w.metas.length → (d.w.getMeta s).taskAlive = true →
+      (∃ tid t, (d.w.cmd d.cid).tasks.get? tid = some t ∧ t.serial = s) ∨ (∃ t ∈ (d.w.cmd d.cid).spawnQ, t.serial = s)) ∧
+    M.Hosts.liveFutures d.w ≤ (d.w.cmd d.cid).tasks.len + (d.w.cmd d.cid).spawnQ.length := by
+  have ag := M.Hosts.runDirect_ag is hf canon acts os d h
+  exact ⟨ag.2.2.2, M.Hosts.liveFutures_le_stored d.cid d.w ag.2⟩
+
+/-! non-vacuity: a run in which a child is spawned, its request dropped (the child is evicted) and the parent finishes —
+    evaluated by the kernel: three futures were created, none is alive at the end -/
+example : ((M.Hosts.runDirectG (.task [.spawn 0 [.req 1 2 (.lit 3)], .await 0, .emit 5 (.lit 1)]) false [.drop 0]).map
+    fun r => r.1.map (·.2)) = some [2, 0] := by decide +kernel
 
 /-! ### the cleared-timer set of the legacy Time capability (crux_time/src/lib.rs: `clear`, `TimerFuture`, `LIVE_TIMERS`)
 
